@@ -492,10 +492,10 @@ Section Frame.
         pose proof (run_mods_R mods (w_n w) c1 v) as M. destruct (run_mods (w_n w) c1 mods v) as [c2 v2|]; [|exact I].
         assert (R2 : R c c2) by (eapply Rtrans; [apply Rsame; exact G|exact M]).
         destruct (cerr c2); [exact R2|].
-        set (c3 := match ok with [] => c2 | _ :: _ => ctx_set_static ok (VBool (negb (is_nil v2))) c2 end).
+        set (c3 := match ok with [] => c2 | _ :: _ => ctx_set_static ok (VBool (negb (is_void v2))) c2 end).
         assert (R3 : R c c3).
         { unfold c3. destruct ok; [exact R2|]. eapply Rtrans; [exact R2|apply Rsame, sf_ctx_set]. }
-        destruct (is_nil v2); [exact R3|].
+        destruct (is_void v2); [exact R3|].
         assert (K1 : forall b, R c (ctx_set_bytes var b c3)) by (intros; eapply Rtrans; [exact R3|apply Rsame, sf_ctx_set_bytes]).
         assert (K2 : forall n, R c (ctx_set_counter var n c3)) by (intros; eapply Rtrans; [exact R3|apply Rsame, sf_ctx_set_counter]).
         assert (K3 : forall v st, R c (ctx_set var v st c3)) by (intros; eapply Rtrans; [exact R3|apply Rsame, sf_ctx_set]).
@@ -1153,11 +1153,11 @@ Section NodeP.
       destruct (cerr c1); [reflexivity|].
       rewrite run_mods_push. destruct (run_mods (w_n w) c1 mods v) as [c2 v2|]; cbn [pushC]; [|reflexivity].
       rewrite cerr_push. destruct (cerr c2); [reflexivity|].
-      assert (E3 : match ok with [] => push l c2 | _ :: _ => ctx_set_static ok (VBool (negb (is_nil v2))) (push l c2) end =
-                   push l (match ok with [] => c2 | _ :: _ => ctx_set_static ok (VBool (negb (is_nil v2))) c2 end))
+      assert (E3 : match ok with [] => push l c2 | _ :: _ => ctx_set_static ok (VBool (negb (is_void v2))) (push l c2) end =
+                   push l (match ok with [] => c2 | _ :: _ => ctx_set_static ok (VBool (negb (is_void v2))) c2 end))
         by (destruct ok; [reflexivity|apply ctx_set_static_push]).
-      rewrite E3. set (c3 := match ok with [] => c2 | _ :: _ => ctx_set_static ok (VBool (negb (is_nil v2))) c2 end).
-      destruct (is_nil v2); [reflexivity|].
+      rewrite E3. set (c3 := match ok with [] => c2 | _ :: _ => ctx_set_static ok (VBool (negb (is_void v2))) c2 end).
+      destruct (is_void v2); [reflexivity|].
       rewrite bufLC_push.
       destruct (conv_bytes v2) as [[|b0 b]|]; try (rewrite ctx_set_bytes_push; reflexivity);
         destruct v2; rewrite ?ctx_set_counter_push, ?ctx_set_push; reflexivity.
